@@ -1,5 +1,5 @@
-import Fv.Lemmas.LogJson
-import Fv.Log.Pattern
+import Fv.Lemmas.LogJsonMain
+import Fv.Lemmas.LogPattern
 /-!
 # C20 — log encoders are total and lossless; file rolling never loses or tears records
 
@@ -21,8 +21,116 @@ example : Json.decodeString (Json.encodeString "a\"\\\n\x01é".toList) = some "a
 theorem json_string_no_control (s : Text) : ∀ c ∈ Json.encodeString s, 0x20 ≤ c.toNat :=
   Json.encodeString_no_control s
 
+/-! ## JSON-lines records
+
+`Json.FloatsOk ev`: the renderings supplied for *finite* float fields are number tokens that are not
+integer tokens (serde_json/ryu always prints a `.` or an exponent; trusted, and checked by the engine on
+every generated case). `Json.KeysDistinct ev`: `fields` is a `HashMap`. Nothing is assumed about any string. -/
+
+/-- The decoder reads back exactly the key/value map that `format_event` serialised — for every
+event content (arbitrary strings, ints, bools, non-finite floats), nested or flattened. -/
+theorem json_record_roundtrip (flatten : Bool) (ev : Event) (hf : Json.FloatsOk ev) :
+    Json.parseLine (Json.formatEvent flatten ev) = some (Json.record flatten ev) :=
+  Json.parseLine_formatEvent flatten ev hf
+
+/-- A JSON-lines record is one line: `body ++ "\n"` where `body` has no character below 0x20
+(no raw newline, carriage return or other control character). -/
+theorem json_record_one_line (flatten : Bool) (ev : Event) (hf : Json.FloatsOk ev) :
+    ∃ body, Json.formatEvent flatten ev = body ++ ['\n'] ∧ ∀ c ∈ body, 0x20 ≤ c.toNat :=
+  Json.formatEvent_one_line flatten ev hf
+
+/-- Nested (default) layout: decoding the record yields the event's level, target and message, and
+under every custom field name exactly the field's JSON image (`toJson`: strings/ints/bools/debug
+strings as themselves, finite floats as their number token) — and nothing under any other name. -/
+theorem json_event_roundtrip (ev : Event) (hk : Json.KeysDistinct ev) (hf : Json.FloatsOk ev) :
+    ∃ v, Json.decodeEvent false (Json.formatEvent false ev) = some v ∧ v.level = ev.level.text ∧
+      v.target = ev.target ∧ v.message = ev.message ∧
+      ∀ k, lookup k v.fields = (lookup k ev.fields).map Json.toJson := by
+  obtain ⟨v, hv, h⟩ := Json.viewOf_nested ev hk
+  exact ⟨v, by simp only [Json.decodeEvent, Json.parseLine_formatEvent false ev hf, hv], h⟩
+
+/-- strings, ints and bools are their own JSON image (definitionally) -/
+theorem json_toJson_faithful (s : Text) (i : Int) (b : Bool) :
+    Json.toJson (.str s) = .str s ∧ Json.toJson (.int i) = .int i ∧ Json.toJson (.bool b) = .bool b ∧
+      Json.toJson (.debug s) = .str s :=
+  ⟨rfl, rfl, rfl, rfl⟩
+
+/-- Flattened layout, partial: the same round trip holds when no custom field uses one of the nine
+reserved core names (false without that hypothesis: `C20_fails_F13b`). -/
+theorem json_event_roundtrip_flat_partial (ev : Event) (hk : Json.KeysDistinct ev) (hf : Json.FloatsOk ev)
+    (hres : ∀ k ∈ ev.fields.map (·.1), Json.coreKeys.contains k = false) :
+    ∃ v, Json.decodeEvent true (Json.formatEvent true ev) = some v ∧ v.level = ev.level.text ∧
+      v.target = ev.target ∧ v.message = ev.message ∧
+      ∀ k, lookup k v.fields = (lookup k ev.fields).map Json.toJson := by
+  obtain ⟨v, hv, h⟩ := Json.viewOf_flat ev hk hres
+  exact ⟨v, by simp only [Json.decodeEvent, Json.parseLine_formatEvent true ev hf, hv], h⟩
+
+
+/-! ## pattern encoder
+
+All statements are about `Pattern.parse pat` for an *arbitrary* pattern string `pat` (the leftmost-first
+regex grammar of `PatternFormatter::parse`) and an arbitrary event. -/
+
+/-- Exact panic condition: `format_event` panics iff some specifier other than `%n` carries a padding
+that is `i32::MIN`, or whose absolute value exceeds both 65 535 and the byte length of the content. -/
+theorem pattern_panics_iff (pat : Text) (ev : Event) :
+    Pattern.formatEvent pat ev = none ↔
+      ∃ c p o, Pattern.Segment.spec c (some p) o ∈ Pattern.parse pat ∧ c ≠ 'n' ∧
+        (p = -2147483648 ∨ (utf8Len (Pattern.specContent c o ev) < p.natAbs ∧ 65535 < p.natAbs)) := by
+  simp only [Pattern.formatEvent, Option.map_eq_none_iff, Pattern.renderSegs_eq_none_iff]
+  constructor
+  · rintro ⟨s, hs, h⟩
+    obtain ⟨c, p, o, rfl, hn, hp⟩ := (Pattern.renderSeg_eq_none_iff ev s).mp h
+    exact ⟨c, p, o, hs, hn, (Pattern.applyPadding_eq_none_iff _ p).mp hp⟩
+  · rintro ⟨c, p, o, hs, hn, hp⟩
+    exact ⟨_, hs, (Pattern.renderSeg_eq_none_iff ev _).mpr ⟨c, p, o, rfl, hn, (Pattern.applyPadding_eq_none_iff _ p).mpr hp⟩⟩
+
+/-- Totality, partial: rendering never panics when every padding satisfies |padding| ≤ 65 535.
+(The property wants this for every pattern; false for larger paddings: `C20_fails_F13c`, `C20_fails_F13d`.) -/
+theorem pattern_total_partial (pat : Text) (ev : Event) (h : ∀ s ∈ Pattern.parse pat, Pattern.PaddingOk s) :
+    ∃ out, Pattern.formatEvent pat ev = some out := by
+  obtain ⟨out, ho⟩ := Pattern.renderSegs_total ev (Pattern.parse pat) h
+  exact ⟨Pattern.ensureNewline out, by simp only [Pattern.formatEvent, ho, Option.map_some]⟩
+
+example : ∀ s ∈ Pattern.parse "[%d] %-5p %t - %20m%n".toList, Pattern.PaddingOk s := by decide
+
+/-- every padding the parser produces fits an `i32` (so the only panicking paddings are
+`i32::MIN` and 65 535 < |padding| ≤ `i32::MAX`) -/
+theorem pattern_padding_in_i32 (pat : Text) : ∀ s ∈ Pattern.parse pat, Pattern.SpecInRange s :=
+  Pattern.parseGo_inRange _ _ _
+
+/-- `%m` reproduces the message verbatim: whenever the pattern contains an `m` specifier (with or
+without padding/options) and rendering does not panic, the output contains the message as a contiguous
+substring (padding only adds spaces around it). -/
+theorem pattern_message_verbatim (pat : Text) (ev : Event) (out : Text) (h : Pattern.formatEvent pat ev = some out)
+    (p : Option Int) (o : Option Text) (hm : Pattern.Segment.spec 'm' p o ∈ Pattern.parse pat) :
+    ev.message.getD [] <:+: out := by
+  simp only [Pattern.formatEvent, Option.map_eq_some_iff] at h
+  obtain ⟨raw, hr, rfl⟩ := h
+  exact Pattern.infix_ensureNewline _ _ (Pattern.message_verbatim_segs hr hm)
+
+example : Pattern.Segment.spec 'm' (some 20) none ∈ Pattern.parse "[%d] %-5p %t - %20m%n".toList := by decide
+
+/-- every rendered record ends with a newline -/
+theorem pattern_ends_with_newline (pat : Text) (ev : Event) (out : Text) (h : Pattern.formatEvent pat ev = some out) :
+    out.getLast? = some '\n' := by
+  simp only [Pattern.formatEvent, Option.map_eq_some_iff] at h
+  obtain ⟨raw, _, rfl⟩ := h
+  exact Pattern.ensureNewline_last raw
+
 def evF13 : Event :=
   { timestamp := "t".toList, level := .info, target := "a".toList, name := "n".toList, message := some "m".toList }
+
+def evEx : Event :=
+  { evF13 with fields := [("k\n".toList, .str "v\"".toList), ("n".toList, .int (-3)), ("f".toList, .float (some "1.5".toList) "1.5".toList),
+                          ("inf".toList, .float none "inf".toList)] }
+
+example : Json.KeysDistinct evEx := by unfold Json.KeysDistinct; decide
+example : Json.FloatsOk evEx := by
+  intro k r d h
+  simp [evEx, evF13] at h
+  obtain ⟨_, rfl, _⟩ := h
+  exact ⟨by decide, by decide, by decide⟩
 
 /-- F13a: a non-finite float field is written as `null`; what is decoded is not the field's value. -/
 theorem C20_fails_F13a :
